@@ -28,3 +28,17 @@ package newrelic
 //@   floats real
 //@   callsite NewTimer requires lastresult(NextBackOff, 0) != -1
 //@   modifies everything
+
+// addTimerMetric (C17): a percentile sub-metric "<statistic>_<p>" is reported under the statistic's name -- the part
+// before the LAST underscore ("sum_squares_90" is statistic "sum_squares", percentile 90) -- with the part after it
+// parsed as the percentile. (The metric-set constructors are payload helpers: trusted, not verified.)
+//@ func (*flush).addTimerMetric
+//@   callsite LastIndex requires s == local(pct).Str
+//@   callsite ParseFloat requires s == strsub(local(pct).Str, wrap64(lastresult(LastIndex, 0) + 1), len(local(pct).Str))
+//@   modifies everything
+//@ func newDimensionalMetricSet
+//@   trusted
+//@   modifies everything
+//@ func newMetricSet
+//@   trusted
+//@   modifies everything
